@@ -15,8 +15,9 @@ From SpyneV Require Export Base.Prelude C12.Model C12.Corr.
 Inductive svar := AppWsdl | BWsdl | AttrCache | ErrLog | MemoIn | MemoGet | SortCache | CDict.
 Inductive lk := WLock | VLock | MLock.
 Inductive fn := Build | Validate | Func.
-(** the test of an [if]: ... is None / ... is not None / not ... in ... / truth value / ... == False *)
-Inductive cond := CNone | CSome | CMiss | CTrue | CFalse.
+(** the test of an [if]: ... is None / ... is not None / not ... in ... / truth value / ... == False /
+    entry is not None and entry[0] is <the current flat type info> *)
+Inductive cond := CNone | CSome | CMiss | CTrue | CFalse | CFresh.
 
 Inductive sk :=
 | Skip
@@ -160,8 +161,11 @@ Definition text_validate (v : variant) : sk :=
 Definition text_memo : sk :=
   Rd MemoIn ;; If CMiss (With MLock (Rd MemoIn ;; If CMiss (Call Func ;; Wr MemoIn ;; Ret))) ;; Rd MemoGet ;; Ret.
 
+(** fti = cls.get_flat_type_info(cls)  (memoized: the memoize component; thread-local here)
+    entry = self._sortcache.get(cls, None); if entry is not None and entry[0] is fti: return entry[1]
+    ...; items.sort(...); self._sortcache[cls] = fti, items; return items *)
 Definition text_sort : sk :=
-  Rd SortCache ;; If CSome Ret ;; SortIt ;; Wr SortCache ;; Ret.
+  If CSome (Call Func) ;; Rd SortCache ;; If CFresh Ret ;; SortIt ;; Wr SortCache ;; Ret.
 
 (** cdict.__getitem__: try: return dict.__getitem__(self, cls)
                        except KeyError: for b in bases: try: retval = self[b]; self[cls] = retval; return retval
@@ -216,8 +220,10 @@ Definition memo_paths : list (list req * list Z * Z * list bool) :=
     ([RMemo [3; 3]], [0;0;0;0;0;0;0], 0, [true; true; false]);               (* miss, then hit *)
     ([RMemo [3]; RMemo [3]], [1;0;0;0;0;0;1;1;1;1], 1, [true; false]) ].     (* filled between the two checks *)
 Definition sort_paths : list (list req * list Z * Z * list bool) :=
-  [ ([RSort [4]], [0;0], 0, [false]);
-    ([RSort [4; 4]], [0;0;0], 0, [false; true]) ].
+  [ ([RSort [3]], [0;0], 0, [true; false]);                       (* nothing cached *)
+    ([RSort [3; 3]], [0;0;0], 0, [true; false; true; true]);      (* miss, then hit *)
+    ([RSort [4]], [0;0], 0, [true; false]);                       (* a list cached for an earlier field table *)
+    ([RSort [4; 4]], [0;0;0], 0, [true; false; true; true]) ].
 
 (** a thread that makes several calls one after the other (RAttrs [1; 1]): the branch list is
     the concatenation of the branches of the calls; a call is walked while branches remain.
